@@ -402,6 +402,9 @@ var c03ArenaTmpl = []string{"<a@b.c%P>", "<%P@b.c>", "# h {.%P}", "# h {k=%P}", 
 	"[a](%P)", "![a](%P 'x')", "www.a.b/%P", "http://a.b/%P"}
 var c03ArenaHostile = []string{"\"><script>alert(1)</scri", "x\" onmouseover=\"alert(1)", "<!-- c --><b onx=1>&bog;", "'><img src=x onerror=al>", "&#0;&#xD800;\"<\">&&&&&&<<<"}
 
+var c03ArenaNameTmpl = []string{"# h {%N=x}", "# h {%N=\"v w\"}", "Setext {%N=x}\n===\n", "## a {.c %N=y}\n\ntext", "```go {%N=x}\ncode\n```\n", "# h {%N}", "> # q {%N=1}"}
+var c03ArenaNames = [][2]string{{"title", "oncut"}, {"style", "oncut"}, {"class", "onerr"}, {"hidden", "onblur"}, {"lang", "onab"}, {"dir", "zzz"}, {"id", "on"}, {"tabindex", "onchange"}, {"data-x", "onclik"}, {"translate", "onkeydown"}}
+
 func c03Arena(c *core.Ctx, pool *cfg.Pool, safe []cfg.Spec) {
 	r := c.Rng
 	a := &srcArena{}
@@ -413,8 +416,18 @@ func c03Arena(c *core.Ctx, pool *cfg.Pool, safe []cfg.Spec) {
 		hs = padTo(hs, len(harmless), '"')
 		docA := []byte(strings.ReplaceAll(tm, "%P", harmless))
 		docB := []byte(strings.ReplaceAll(tm, "%P", hs))
+		nameSlot := i%4 == 1
+		if nameSlot {
+			// the slot is an attribute NAME: a name the allow-list accepts, then - same length, same place - one it must reject
+			pair := c03ArenaNames[r.Intn(len(c03ArenaNames))]
+			nt := c03ArenaNameTmpl[r.Intn(len(c03ArenaNameTmpl))]
+			docA = []byte(strings.ReplaceAll(nt, "%N", pair[0]))
+			docB = []byte(strings.ReplaceAll(nt, "%N", pair[1]))
+		}
 		sp := safe[r.Intn(len(safe))]
-		if i%3 == 0 {
+		if nameSlot {
+			sp = cfg.Spec{Ext: []int{cfg.ExtCore, cfg.ExtAll, cfg.ExtGFM}[r.Intn(3)], Attribute: true, AutoHeadingID: r.Intn(2) == 0, XHTML: r.Intn(2) == 0}
+		} else if i%3 == 0 {
 			sp = cfg.Spec{Ext: cfg.ExtAll, Attribute: true, AutoHeadingID: r.Intn(2) == 0, XHTML: r.Intn(2) == 0, HardWraps: r.Intn(2) == 0}
 		}
 		name := sp.Name()
